@@ -441,10 +441,18 @@ theorem pProgramLoop_good (indent : Nat) (inExec : Bool) (imports : List Import)
         simp only [sat_bind]
         apply hg.callS .importStmt rfl hi1 trivial
         · intro im s2 hi2 hm2 hq2 hc2
-          apply hg.callN (.programLoop indent false (imports ++ [im]) exec) hi2 ⟨mem_snoc hpre.1 hc2, hpre.2⟩
-          · intro p s3 hi3 hm3 hq3 hc3
-            exact post_le rfl hi3 (by omega) (by have := q_le_one s; omega) (fun h => h.elim) hc3
-          · fuel_tac
+          apply lineOf_sat
+          intro l
+          apply swallowAll_sat hl (by decide) n s2 hi2
+          · intro s2' hi2' hm2' hq2'
+            apply hg.callN (.programLoop indent false (imports ++ [{ im with line := l }]) exec) hi2'
+              ⟨mem_snoc hpre.1 (show ImportOK { im with line := l } from hc2), hpre.2⟩
+            · intro p s3 hi3 hm3 hq3 hc3
+              exact post_le rfl hi3 (by omega) (by have := q_le_one s; omega) (fun h => h.elim) hc3
+            · fuel_tac
+          · intro h
+            simp only [need, rank]
+            omega
         · fuel_tac
       · fuel_tac
   · simp only [sat_pure]
